@@ -155,6 +155,53 @@ def expandDistr (s0 slen d0 dlen : Nat) : List Op :=
 /-- `RangeCon2Slack::PresolveNamesEntry` for `{CON_SRC, CON_TARGET, VAR_SLK}`: slack first, then the equality -/
 def expandSlack (s con slk : Nat) : List Op := [Op.sgive s false slk, Op.sgive s true con]
 
+/-! ### building the schedule: `CopyLink::AddEntry`, `Many2ManyLink::AddEntry` (with repo commit 5f9dc1e:
+an entry is extended in place only if it is the most recently registered entry of the whole chain) -/
+
+/-- a link entry of the execution schedule; cells are `(node, index)` -/
+inductive Entry where
+  | copy (link sn sb dn db len : Nat)
+  | m2m (link sn sb slen dn db dlen : Nat)
+  | slack (link sn si cn ci vn vi : Nat)
+deriving Repr, DecidableEq
+
+def Entry.ops (base : Nat → Nat) : Entry → List Op
+  | .copy _ sn sb dn db len => expandCopy (base sn + sb) (base dn + db) len
+  | .m2m _ sn sb slen dn db dlen => expandDistr (base sn + sb) slen (base dn + db) dlen
+  | .slack _ sn si cn ci vn vi => expandSlack (base sn + si) (base cn + ci) (base vn + vi)
+
+/-- operations of a schedule kept most-recent-first (head = last registered entry) -/
+def schedOps (base : Nat → Nat) : List Entry → List Op
+  | [] => []
+  | e :: rest => schedOps base rest ++ e.ops base
+
+/-- `CopyLink::AddEntry`: `IsLastRegisteredEntry(entries_.size()-1)` holds iff the head of the schedule
+is an entry of this link; then both ranges must be extendable (`same node, end == new begin`) -/
+def addCopy (S : List Entry) (link sn sb dn db len : Nat) : List Entry :=
+  match S with
+  | .copy l sn' sb' dn' db' len' :: rest =>
+    if l = link ∧ sn' = sn ∧ sb' + len' = sb ∧ dn' = dn ∧ db' + len' = db
+    then .copy l sn' sb' dn' db' (len' + len) :: rest
+    else .copy link sn sb dn db len :: S
+  | _ => .copy link sn sb dn db len :: S
+
+/-- `Many2ManyLink::AddEntry`: same sources and consecutive targets, or same targets and consecutive sources -/
+def addM2M (S : List Entry) (link sn sb slen dn db dlen : Nat) : List Entry :=
+  match S with
+  | .m2m l sn' sb' slen' dn' db' dlen' :: rest =>
+    if l = link ∧ sn' = sn ∧ sb' = sb ∧ slen' = slen ∧ dn' = dn ∧ db' + dlen' = db
+    then .m2m l sn' sb' slen' dn' db' (dlen' + dlen) :: rest
+    else if l = link ∧ dn' = dn ∧ db' = db ∧ dlen' = dlen ∧ sn' = sn ∧ sb' + slen' = sb
+    then .m2m l sn' sb' (slen' + slen) dn' db' dlen' :: rest
+    else .m2m link sn sb slen dn db dlen :: S
+  | _ => .m2m link sn sb slen dn db dlen :: S
+
+/-- purely structural feeding condition: every operation's source (or its target) is in the set of cells
+known to be named: the initially named cells and the targets of earlier operations -/
+def topoB : List Nat → List Op → Bool
+  | _, [] => true
+  | named, o :: os => (named.contains o.dst || named.contains o.src) && topoB (o.dst :: named) os
+
 /-! ### reading the results (FlatConverter::PresolveNames) -/
 
 /-- variables and objectives: `return dest_` copy-constructs every element (one more counted copy),
@@ -273,20 +320,26 @@ def readNamesFile (data : List Char) : ReadRes :=
 /-- result of `NameProvider::name(index)` for a name taken from the file -/
 inductive FileName where
   | name (nm : Name)
-  /-- the Windows test `*(pos1past-1)` reads the byte before the mapped file (first line empty) -/
-  | readsBeforeBuffer (nmIfNotCR : Name)
 deriving Repr, DecidableEq
 
 def slice (data : List Char) (b e : Nat) : Name := (data.drop b).take (e - b)
 
-/-- `NameProvider::name`, branch `index + 1 < names_.size()` -/
+/-- offset of the byte inspected by the Windows test `pos1past > name && '\r' == *(pos1past-1)`
+(none: the guard short-circuits, nothing is read) -/
+def winTestIdx (offs : List Nat) (index : Nat) : Option Nat :=
+  let nm := offs.getD index 0
+  let pos1past := offs.getD (index + 1) 0 - 1
+  if pos1past > nm then some (pos1past - 1) else none
+
+/-- `NameProvider::name`, branch `index + 1 < names_.size()` (with the guard of repo commit f144d4f) -/
 def fileName (data : List Char) (offs : List Nat) (index : Nat) : Option FileName :=
   if index + 1 < offs.length then
     let nm := offs.getD index 0
     let pos1past := offs.getD (index + 1) 0 - 1
-    if pos1past = 0 then some (.readsBeforeBuffer (slice data nm pos1past))
-    else if data.getD (pos1past - 1) ' ' = '\r' then some (.name (slice data nm (pos1past - 1)))
-    else some (.name (slice data nm pos1past))
+    match winTestIdx offs index with
+    | some k => if data.getD k ' ' = '\r' then some (.name (slice data nm (pos1past - 1)))
+                else some (.name (slice data nm pos1past))
+    | none => some (.name (slice data nm pos1past))
   else none
 
 def genericName (stub : Name) (k : Nat) : Name := stub ++ '[' :: (dec k ++ [']'])
@@ -303,11 +356,6 @@ def numberRead (offs : List Nat) : Nat := offs.length - 1
 
 def FileName.text : FileName → Name
   | .name nm => nm
-  | .readsBeforeBuffer nm => nm
-
-def FileName.ub : FileName → Bool
-  | .name _ => false
-  | .readsBeforeBuffer _ => true
 
 /-- contents of a names file as seen by `NameReader::Read`: absent/unreadable/empty files are ignored -/
 def fileOffsets (file : Option (List Char)) : ReadRes :=
